@@ -117,7 +117,16 @@ type allocRec struct {
 	complete bool // object came complete from a callee (its invariant already holds)
 }
 
+// a map made by this function (make(map...)): until it is handed out, callees cannot change it
+type mapAllocRec struct {
+	val   *ssa.MakeMap
+	ref   Term
+	key   string // M|K|V|type
+	block *ssa.BasicBlock
+}
+
 type Enc struct {
+	mapAllocs []mapAllocRec
 	lastTyp      map[string]types.Type // static type of lastresult(callee)
 	nameFallback bool
 	atHit    map[int]bool // at-clauses of the contract that matched a site
@@ -219,6 +228,7 @@ func (e *Enc) reset() {
 	e.strlitOrder = nil
 	e.defers = nil
 	e.allocs = nil
+	e.mapAllocs = nil
 	e.rets = nil
 	e.specDecl = map[string]bool{}
 	e.boxDecl = map[string]bool{}
